@@ -1,9 +1,16 @@
 //go:build verif
 
 // c09 forces goroutine schedules (from TLC / seeded random) on the real lock-free sliding window
-// (sbase.BucketLeapArray: AddCount / Count) with goroutines parked at the la.* / mb.* yield points and records
-// an operation-level trace (invocations, returns with values, roll-over steps, ticks) that
-// spec/WindowConc_Trace.tla judges against property C09.
+// (sbase.BucketLeapArray: AddCount / UpdateConcurrency / Count / MinRt / MaxConcurrency) with goroutines parked at
+// the la.* / mb.* yield points and records an operation-level trace (invocations, returns with values, roll-over
+// steps, ticks) that spec/WindowConc_Trace.tla judges against property C09.
+//
+// Every operation names the statistic ("ev") it records into / reads:
+//   add : "pass" "block" "complete" "error" "rt" -> AddCount(event, n) ("rt" goes through AddRt: also the bucket minimum)
+//         "conc"                                 -> UpdateConcurrency(n) (the bucket maximum)
+//   read: the five event kinds                   -> Count(event)
+//         "minrt" -> MinRt()      "maxconc" -> MaxConcurrency()
+// (ev absent = "pass").  After the schedule a final goroutine reads every statistic once at quiescence.
 //
 // usage: c09 <scenarios.ndjson> <trace.ndjson>
 package main
@@ -21,7 +28,42 @@ import (
 
 type op struct {
 	kind string
+	ev   string
 	n    int64
+}
+
+var events = map[string]base.MetricEvent{
+	"pass": base.MetricEventPass, "block": base.MetricEventBlock, "complete": base.MetricEventComplete,
+	"error": base.MetricEventError, "rt": base.MetricEventRt,
+}
+
+// every statistic a bucket keeps, in the order of the final quiescent reads
+var allReads = []string{"pass", "block", "complete", "error", "rt", "minrt", "maxconc"}
+
+func record(arr *sbase.BucketLeapArray, ev string, n int64) {
+	if ev == "conc" {
+		arr.UpdateConcurrency(int32(n))
+		return
+	}
+	e, ok := events[ev]
+	if !ok {
+		hx.Fatal("unknown statistic to record into: %q", ev)
+	}
+	arr.AddCount(e, n)
+}
+
+func read(arr *sbase.BucketLeapArray, ev string) int64 {
+	switch ev {
+	case "minrt":
+		return arr.MinRt()
+	case "maxconc":
+		return int64(arr.MaxConcurrency())
+	}
+	e, ok := events[ev]
+	if !ok {
+		hx.Fatal("unknown statistic to read: %q", ev)
+	}
+	return arr.Count(e)
 }
 
 func main() {
@@ -51,7 +93,11 @@ func main() {
 			var ops []op
 			for _, y := range x.([]interface{}) {
 				m := y.(map[string]interface{})
-				ops = append(ops, op{hx.Str(m, "kind"), hx.Int(m, "n")})
+				ev := hx.Str(m, "ev")
+				if ev == "" {
+					ev = "pass"
+				}
+				ops = append(ops, op{hx.Str(m, "kind"), ev, hx.Int(m, "n")})
 			}
 			plist = append(plist, ops)
 		}
@@ -59,7 +105,7 @@ func main() {
 		for _, x := range s["sched"].([]interface{}) {
 			sched = append(sched, int(x.(float64)))
 		}
-		tr.Emit(hx.M{"op": "new", "tr": hx.Int(s, "tr"), "n": n, "bl": bl, "t0": t0})
+		tr.Emit(hx.M{"op": "new", "tr": hx.Int(s, "tr"), "n": n, "bl": bl, "t0": t0, "maxrt": base.DefaultStatisticMaxRt})
 
 		sc := hx.NewSched()
 		sc.Filter = func(pt string) bool {
@@ -75,14 +121,14 @@ func main() {
 						vhook.Yield("drv.next")
 					}
 					now := clk.NowMs()
-					tr.Emit(hx.M{"op": "inv", "p": i + 1, "kind": o.kind, "ts": now, "n": o.n})
+					tr.Emit(hx.M{"op": "inv", "p": i + 1, "kind": o.kind, "ev": o.ev, "ts": now, "n": o.n})
 					if o.kind == "add" {
 						pendTs[i] = now
-						arr.AddCount(base.MetricEventPass, o.n)
+						record(arr, o.ev, o.n)
 						delete(pendTs, i)
 						tr.Emit(hx.M{"op": "ret", "p": i + 1, "val": 0, "now": clk.NowMs()})
 					} else {
-						v := arr.Count(base.MetricEventPass)
+						v := read(arr, o.ev)
 						tr.Emit(hx.M{"op": "ret", "p": i + 1, "val": v, "now": clk.NowMs()})
 					}
 				}
@@ -126,14 +172,16 @@ func main() {
 			}
 		}
 		if !stuck {
-			// a final quiescent read, still through the gate: if an earlier operation leaked the update lock this read
-			// spins for ever, which must show up as non-termination and not hang the driver
+			// final quiescent reads of every statistic, still through the gate: if an earlier operation leaked the update
+			// lock the first read spins for ever, which must show up as non-termination and not hang the driver
 			fin := sc.Spawn(func() {
 				now := clk.NowMs()
-				tr.Emit(hx.M{"op": "inv", "p": 8, "kind": "read", "ts": now, "n": 0})
-				tr.Emit(hx.M{"op": "ret", "p": 8, "val": arr.Count(base.MetricEventPass), "now": now})
+				for _, ev := range allReads {
+					tr.Emit(hx.M{"op": "inv", "p": 8, "kind": "read", "ev": ev, "ts": now, "n": 0})
+					tr.Emit(hx.M{"op": "ret", "p": 8, "val": read(arr, ev), "now": now})
+				}
 			})
-			for n := 0; !fin.Done && n < 3000; n++ {
+			for n := 0; !fin.Done && n < 6000; n++ {
 				sc.Step(fin)
 			}
 			stuck = !fin.Done
